@@ -102,7 +102,8 @@ func VerifC17RenameThenInitialize() {
 func VerifC17SelectorsAfterBuilderRules() {
 	p := ast.NewSchema("p", ast.SchemaMeta{})
 	p.AddObject(ast.NewObject("p", "Foo", ast.NewStruct(ast.NewStructField("title", ast.String()), ast.NewStructField("uid", ast.String()))))
-	p.AddObject(ast.NewObject("p", "Bar", ast.NewStruct(ast.NewStructField("title", ast.String()))))
+	// (two fields each: a builder left without options is dismissed by the rewriter)
+	p.AddObject(ast.NewObject("p", "Bar", ast.NewStruct(ast.NewStructField("title", ast.String()), ast.NewStructField("note", ast.String()))))
 	schemas := ast.Schemas{p}
 	builders := (&ast.BuilderGenerator{}).FromAST(schemas)
 	var brules []builder.RewriteRule
